@@ -44,10 +44,12 @@ REPS = [
     # an integer that no float represents, as an int and as an integral-valued rational (hash must not go through f64)
     ("wide", "(2^53+1)", cI(2 ** 53 + 1)), ("wide", "((2^54+2)/2)", ["q", str(2 ** 53 + 1), "1"]),
     ("third", "(1/3)", ["q", "1", "3"]), ("third", "((2^70+1)/(3*2^70+3))", ["q", "1", "3"]),
+    # dict equality ignores the default, so a dict key with a default is the same key as the plain one
+    ("d12", "{:0, 1: 2}", ["d", [[cI(1), cI(2)]], cI(0)]),
 ]
-QUICK_REPS = [0, 1, 2, 5, 6, 10, 11, 13, 14, 19, 22, 23, 26, 27]       # 1, 1.0, 2/2, 1/2, 0.5, 2^64, 2.0^64, [1], [1.0], "1", V(1, NaN), V(1.0, NaN)
+QUICK_REPS = [0, 1, 2, 5, 6, 10, 11, 13, 14, 17, 30, 19, 22, 23, 26, 27]       # 1, 1.0, 2/2, 1/2, 0.5, 2^64, 2.0^64, [1], [1.0], "1", V(1, NaN), V(1.0, NaN)
 # depth-3 search: 21 representatives ([NaN], {1: NaN} and the two spellings of 1/3 stay in the grid family, which uses every representative)
-MID_REPS = [0, 1, 2, 3, 4, 5, 6, 7, 9, 10, 11, 12, 13, 14, 15, 16, 19, 22, 23, 26, 27]
+MID_REPS = [0, 1, 2, 3, 4, 5, 6, 7, 9, 10, 11, 12, 13, 14, 15, 16, 17, 30, 19, 22, 23, 26, 27]
 
 OPS = ["set", "inc", "rem", "add", "sub", "merge", "inter", "minus", "plus", "ins"]
 RAISE = "raise"
